@@ -70,6 +70,26 @@ def _work(payload):
     return out
 
 
+def _graph_work(payload):
+    """Delivered costs for graph states given in graph form (Graph object), vs the optimum of their component."""
+    from .. import impl
+    out = []
+    for n, conn, gid in payload:
+        g = B.sg(n)
+        gens = B.graph_states_gens(n, gid)
+        comp = g.component_of_gens(gens)
+        rec = {"n": n, "conn": conn, "graph_id": gid, "comp": comp}
+        try:
+            stab = impl.Stabilizer(impl.Graph.decompress(n, gid))
+            prep = impl.circuit_ops(impl.stabilizer_circuits.get_preparation_circuit(stab, conn))
+            ro = impl.circuit_ops(impl.stabilizer_circuits.get_readout_circuit(impl.Stabilizer(M.gens_str(gens, n)), conn))
+            rec["costs"] = {"preparation": M.two_qubit_cost(prep), "readout": M.two_qubit_cost(ro)}
+        except Exception as ex:      # noqa: BLE001
+            rec["error"] = "%s: %s" % (type(ex).__name__, ex)
+        out.append(rec)
+    return out
+
+
 def check(ctx):
     quick = ctx.tier == "quick"
     ctx.phase("model self-checks")
@@ -102,6 +122,7 @@ def check(ctx):
     by_conf = {}
     for (n, conn, _), part in zip(payloads, results):
         by_conf.setdefault((n, conn), []).extend(part)
+    by_conf_opt = {}
     for n, conn in M.CONFIGS:
         g = B.sg(n)
         recs = by_conf[(n, conn)]
@@ -129,6 +150,8 @@ def check(ctx):
                                                       r["costs"]["compress"], r["table_cost"], r["opt"]))
                 same = len(set(r["costs"].values())) == 1
                 ctx.violation(dict(case, delivered=r["costs"]), what, key=key if same else None)
+        optc = {r["comp"]: r for r in recs}
+        by_conf_opt[(n, conn)] = optc
         hist = {}
         for r in recs:
             hist[r["opt"]] = hist.get(r["opt"], 0) + 1
@@ -136,6 +159,37 @@ def check(ctx):
         mid = recs[len(recs) // 2]
         ctx.sample({"n": n, "conn": conn, "class_id": mid["class_id"], "state": mid["state"], "optimum": mid["opt"],
                     "delivered": mid.get("costs"), "witness": " ".join("%s%s" % (w[0], ",".join(map(str, w[1:]))) for w in mid["witness"])}, limit=20)
+    # every graph state given in graph form: the delivered cost must be the optimum of its class too
+    ctx.phase("graph states in graph form: delivered cost vs optimum of the class")
+    B.warm()
+    gp = []
+    for n, conn in M.CONFIGS:
+        ng = 1 << (n * (n - 1) // 2)
+        if n <= 5:
+            gp += [(n, conn, gid) for gid in range(ng)]
+        else:
+            k = M.configs_for(6).index(conn)
+            gp += [(n, conn, gid) for gid in range(k, ng, 7 * (8 if quick else 1))]
+    nch = core.NPROC * 8
+    for part in core.pmap(_graph_work, [gp[k::nch] for k in range(nch)]):
+        for r in part:
+            ctx.count("graph_form_states")
+            ref = by_conf_opt[(r["n"], r["conn"])][r["comp"]]
+            case = {"kind": "gap", "n": r["n"], "conn": r["conn"], "class_id": ref["class_id"], "graph_id": r["graph_id"],
+                    "state": M.gens_str(B.graph_states_gens(r["n"], r["graph_id"]), r["n"]), "graph_form": True,
+                    "witness": [list(gt) for gt in ref["witness"]], "optimum": ref["opt"]}
+            if "error" in r:
+                ctx.violation(dict(case, kind="error"), "error: n=%d %s graph %d: API raised %s" % (r["n"], r["conn"], r["graph_id"], r["error"]))
+                continue
+            worst = max(r["costs"].values())
+            if min(r["costs"].values()) < ref["opt"]:
+                raise core.HarnessError("n=%d %s graph %d: delivered %r below the model optimum %d" % (r["n"], r["conn"], r["graph_id"], r["costs"], ref["opt"]))
+            if worst > ref["opt"]:
+                key = {"n": r["n"], "conn": r["conn"], "class_id": ref["class_id"], "delivered": worst, "optimum": ref["opt"]}
+                same_as_listed = core.canon_json(key) in ctx.known
+                ctx.violation(dict(case, delivered=r["costs"]),
+                              "gap: n=%d %s graph %d (class %d) given in graph form: delivered %r two-qubit gates; a circuit with %d exists"
+                              % (r["n"], r["conn"], r["graph_id"], ref["class_id"], r["costs"], ref["opt"]), key=key if same_as_listed else None)
     ctx.count("gaps_observed", gaps)
     ctx.exhaustive = True
     ctx.notes["states_meaning"] = "states of U_n over which the 0/1 shortest-path search ran (all of them, per configuration)"
@@ -153,6 +207,23 @@ def replay_gap(body):
     if msg:
         raise core.HarnessError(msg)
     from .. import impl
+    if body.get("graph_form"):
+        # the failing request is the graph given in graph form; the witness prepares a local-Clifford equivalent
+        # state (same component in the model), so `optimum` two-qubit gates + single-qubit gates suffice for it too
+        gid = body["graph_id"]
+        if B.sg(n).component_of_gens(gens) != B.sg(n).component_of_gens(B.graph_states_gens(n, gid)):
+            raise core.HarnessError("witness is not local-Clifford equivalent to the graph state")
+        stab = impl.Stabilizer(impl.Graph.decompress(n, gid))
+        try:
+            costs = {"preparation": M.two_qubit_cost(impl.circuit_ops(impl.stabilizer_circuits.get_preparation_circuit(stab, conn))),
+                     "readout": M.two_qubit_cost(impl.circuit_ops(impl.stabilizer_circuits.get_readout_circuit(stab, conn)))}
+        except Exception as ex:     # noqa: BLE001
+            return "API raised %s" % type(ex).__name__ if body["kind"] == "error" else None
+        if body["kind"] == "error":
+            return None
+        if max(costs.values()) > body["optimum"]:
+            return "library delivers %r two-qubit gates for graph %d in graph form; %d suffice (witness + single-qubit gates)" % (costs, gid, body["optimum"])
+        return None
     try:
         costs = measured_costs(n, conn, gens)
     except Exception as ex:     # noqa: BLE001
